@@ -26,13 +26,34 @@ CHECKS = {
             "seeded exploration of limit boundaries under segmentation, and an adversarial endless lazy peer with a per-recv meter against a configuration-derived bound",
             "the bound B(cfg) and the 2-byte unit band are the harness's reading of the documentation (listed in evidence.assumptions)",
             "deterministic simulation with an adversarial (never-terminating, metered) peer"),
+    "C02": ("W2-conn",
+            "seeded exploration of (requests, generated WSGI programs incl. failure points, worker family, keep-alive, sendfile, network/syscall fault) with the wire decoded by an independent strict response reader",
+            "trusts oracles/resp_ref.py; program-dominated: the simulator adds failure at write k, peer loss at I/O op k, keep-alive continuation on the live connection, sendfile fallback under lseek/fstat faults; HEAD/204/304-with-body programs are a separately keyed sub-check",
+            "deterministic simulation of the connection with fault injection + reference response parser"),
+    "C05": ("W2-conn",
+            "fault enumeration: for every generated or corpus byte stream the connection's I/O operations are counted fault-free, then one run per (operation index, fault kind) - exhaustive over crash points of that workload - each followed by a valid connection to the same worker",
+            "'rejected' is judged by what the real RequestParser yields for the same bytes; a fault at op k persists for later ops",
+            "deterministic simulation with exhaustive per-operation fault enumeration (peer EOF/RST/EPIPE/ENOTCONN)"),
+    "C08": ("W2-conn",
+            "seeded exploration of (peer, trust configuration, header spellings, PROXY line, position in a keep-alive connection) against a reference trust mapping written from the documentation",
+            "trusts oracles/trust_ref.py; the gthread keep-alive continuation is driven single-threaded by calling the real handle() again on the same TConn",
+            "deterministic simulation of keep-alive connection histories + reference mapping"),
+    "C09": ("W2-conn",
+            "seeded exploration of start_response arguments (every byte class at every field, hop-by-hop names, second calls) with line-by-line comparison of the raw head at the client",
+            "program-dominated: the simulator contributes the order of wire effects (refusal precedes the first byte; late start_response after flushed writes)",
+            "deterministic simulation of the connection + expected-head model"),
+    "C19": ("W2-conn",
+            "seeded exploration relating captured gunicorn.access records to what the client end decoded from the wire, over all body paths, all atoms, hostile client data and rejected inputs",
+            "record<->response mapping is positional on fault-free connections; failing application calls are outside the statement",
+            "deterministic simulation of the connection + wire-derived oracle for log records"),
 }
 
 NOT_APPLICABLE = [
     {"property_id": "C15", "reason": "pure function of one accepted request and the configuration: no schedule, clock, fault, interleaving or history in the statement (DESIGN.md §5)"},
     {"property_id": "C16", "reason": "pure function of (argv, environment, file contents, defaults) evaluated once at start-up: no concurrency, time, fault or multi-party behaviour (DESIGN.md §5)"},
 ]
-PENDING = {}   # id -> reason, for properties whose check is not built yet
+PENDING = {p: "check not built yet (work in progress, see DESIGN.md §11 build order); not claimed until it is"
+           for p in ["C03", "C04", "C10", "C11", "C13", "C14", "C17", "C18", "C20"]}   # id -> reason, for properties whose check is not built yet
 
 
 def main():
